@@ -63,27 +63,6 @@ def implDropSeps : Str → Str
   | [] => []
   | c :: r => if implSep c then implDropSeps r else c :: r
 
-theorem implSep_sound : ∀ c ∈ Gen.whitespace, isSep c = true := by decide
-theorem implSep_complete : ∀ c ∈ [' ', '\t', '\n', '\r'], Gen.whitespace.contains c = true := by decide
-/-- the code's separator set is systemd's WHITESPACE -/
-@[simp] theorem implSep_eq (c : Char) : implSep c = isSep c := by
-  unfold implSep
-  cases h : isSep c with
-  | true =>
-    apply implSep_complete
-    simp only [isSep, Bool.or_eq_true, beq_iff_eq] at h
-    rcases h with ((h | h) | h) | h <;> subst h <;> simp
-  | false =>
-    cases h2 : Gen.whitespace.contains c with
-    | false => rfl
-    | true =>
-      have := implSep_sound c (by simpa using h2)
-      rw [h] at this; exact absurd this (by simp)
-@[simp] theorem implDropSeps_eq (s : Str) : implDropSeps s = dropSeps s := by
-  induction s with
-  | nil => rfl
-  | cons c r ih => simp [implDropSeps, dropSeps, ih]
-
 namespace Impl
 
 /-- SplitWord::next after the D3 repair (an explicitly started word is returned even when empty).
@@ -119,10 +98,4 @@ end Impl
 
 def argFlags : Flags := { unquote := true, cunescape := true, relax := true, retainEscape := false }
 
-#eval Spec.extractFirst argFlags "  \"\" foo".toList
-#eval Impl.next "  \"\" foo".toList
-#eval Spec.extractFirst argFlags "a\\x41'b c'\\  d".toList
-#eval Impl.next "a\\x41'b c'\\  d".toList
-#eval Spec.extractFirst argFlags "a\\_".toList
-#eval Impl.next "a\\_".toList
 end P
